@@ -68,7 +68,11 @@ func (p *parameter) InitHash() px.OrderedMap {
 var ParameterMetaType px.ObjectType
 
 func (p *parameter) Equals(other interface{}, guard px.Guard) bool {
-	return p == other
+	if op, ok := other.(*parameter); ok {
+		return p == op || p.name == op.name && p.captures == op.captures && p.HasValue() == op.HasValue() &&
+			p.typ.Equals(op.typ, guard) && p.Value().Equals(op.Value(), guard)
+	}
+	return false
 }
 
 func (p *parameter) String() string {
